@@ -2,6 +2,8 @@ package fn
 
 import (
 	"encoding/json"
+	"fmt"
+	"os"
 	"sort"
 	"strings"
 
@@ -32,70 +34,83 @@ type evFields struct {
 	K       uint32 `json:"k"`
 }
 
+type evVec struct {
+	E    evFields   `json:"e"`
+	Ps   []evFields `json:"ps"`
+	Cur  uint32     `json:"cur"`
+	Vals []uint32   `json:"vals"`
+	Wf   bool       `json:"wf"`
+	Why  []string   `json:"why"`
+}
+
+// validate builds real events from the vector and runs eventcheck.Checkers.Validate on them.
+func (v evVec) validate() (accepted bool, errText string, panicked bool) {
+	ids := make([]idx.ValidatorID, len(v.Vals))
+	for i, x := range v.Vals {
+		ids[i] = idx.ValidatorID(x)
+	}
+	ch := eventcheck.Checkers{
+		Basiccheck:   basiccheck.New(),
+		Epochcheck:   epochcheck.New(epochReader{pos.EqualWeightValidators(ids, 1), idx.Epoch(v.Cur)}),
+		Parentscheck: parentscheck.New(),
+	}
+	// the parents: real events; entries with the same identity k are the same event
+	byK := map[uint32]*tdag.TestEvent{}
+	parents := make(dag.Events, 0, len(v.Ps))
+	hashes := make(hash.Events, 0, len(v.Ps))
+	for _, p := range v.Ps {
+		pe, ok := byK[p.K]
+		if !ok {
+			pe = &tdag.TestEvent{}
+			pe.SetCreator(idx.ValidatorID(p.Creator))
+			pe.SetEpoch(idx.Epoch(v.E.Epoch))
+			pe.SetSeq(idx.Event(p.Seq))
+			pe.SetFrame(1)
+			pe.SetLamport(idx.Lamport(p.Lamport))
+			var tail [24]byte
+			tail[0] = 0xA0
+			tail[23] = byte(p.K)
+			pe.SetID(tail)
+			byK[p.K] = pe
+		}
+		parents = append(parents, pe)
+		hashes = append(hashes, pe.ID())
+	}
+	e := &tdag.TestEvent{}
+	e.SetCreator(idx.ValidatorID(v.E.Creator))
+	e.SetEpoch(idx.Epoch(v.E.Epoch))
+	e.SetSeq(idx.Event(v.E.Seq))
+	e.SetFrame(idx.Frame(v.E.Frame))
+	e.SetLamport(idx.Lamport(v.E.Lamport))
+	e.SetParents(hashes)
+	var tail [24]byte
+	tail[0] = 0xEE
+	e.SetID(tail)
+	var err error
+	panicked, msg := catch(func() { err = ch.Validate(e, parents) })
+	if panicked {
+		return false, msg, true
+	}
+	if err != nil {
+		return false, err.Error(), false
+	}
+	return true, "", false
+}
+
 func init() {
 	// {"e": event fields, "ps": parents (k = identity), "cur": current epoch, "vals": validator ids, "wf": WellFormed, "why": violated clauses}
 	vecKinds["eventcheck"] = func(r *Report, path string) error {
 		return r.forLines(path, func(line []byte) error {
-			var v struct {
-				E    evFields   `json:"e"`
-				Ps   []evFields `json:"ps"`
-				Cur  uint32     `json:"cur"`
-				Vals []uint32   `json:"vals"`
-				Wf   bool       `json:"wf"`
-				Why  []string   `json:"why"`
-			}
+			var v evVec
 			if err := json.Unmarshal(line, &v); err != nil {
 				return err
 			}
-			ids := make([]idx.ValidatorID, len(v.Vals))
-			for i, x := range v.Vals {
-				ids[i] = idx.ValidatorID(x)
-			}
-			ch := eventcheck.Checkers{
-				Basiccheck:   basiccheck.New(),
-				Epochcheck:   epochcheck.New(epochReader{pos.EqualWeightValidators(ids, 1), idx.Epoch(v.Cur)}),
-				Parentscheck: parentscheck.New(),
-			}
-			// the parents: real events; entries with the same identity k are the same event
-			byK := map[uint32]*tdag.TestEvent{}
-			parents := make(dag.Events, 0, len(v.Ps))
-			hashes := make(hash.Events, 0, len(v.Ps))
-			for _, p := range v.Ps {
-				pe, ok := byK[p.K]
-				if !ok {
-					pe = &tdag.TestEvent{}
-					pe.SetCreator(idx.ValidatorID(p.Creator))
-					pe.SetEpoch(idx.Epoch(v.E.Epoch))
-					pe.SetSeq(idx.Event(p.Seq))
-					pe.SetFrame(1)
-					pe.SetLamport(idx.Lamport(p.Lamport))
-					var tail [24]byte
-					tail[0] = 0xA0
-					tail[23] = byte(p.K)
-					pe.SetID(tail)
-					byK[p.K] = pe
-				}
-				parents = append(parents, pe)
-				hashes = append(hashes, pe.ID())
-			}
-			e := &tdag.TestEvent{}
-			e.SetCreator(idx.ValidatorID(v.E.Creator))
-			e.SetEpoch(idx.Epoch(v.E.Epoch))
-			e.SetSeq(idx.Event(v.E.Seq))
-			e.SetFrame(idx.Frame(v.E.Frame))
-			e.SetLamport(idx.Lamport(v.E.Lamport))
-			e.SetParents(hashes)
-			var tail [24]byte
-			tail[0] = 0xEE
-			e.SetID(tail)
-			var err error
-			panicked, msg := catch(func() { err = ch.Validate(e, parents) })
+			got, errText, panicked := v.validate()
 			raw := json.RawMessage(append([]byte{}, line...))
 			if panicked {
-				r.miss("eventcheck:panic", "Checkers.Validate panicked", raw, v.Wf, msg)
+				r.miss("eventcheck:panic", "Checkers.Validate panicked", raw, v.Wf, errText)
 				return nil
 			}
-			got := err == nil
 			if v.Wf {
 				r.Counts["well_formed"]++
 			} else {
@@ -111,14 +126,45 @@ func init() {
 				sig := "eventcheck:accepted-ill-formed:" + strings.Join(why, "+")
 				gotS := "accepted"
 				if v.Wf {
-					sig = "eventcheck:rejected-well-formed:" + err.Error()
-					gotS = "rejected: " + err.Error()
+					sig = "eventcheck:rejected-well-formed:" + errText
+					gotS = "rejected: " + errText
 				}
 				r.miss(sig, "Checkers.Validate", raw, map[string]interface{}{"well_formed": v.Wf, "violated": v.Why}, gotS)
 			}
 			return nil
 		})
 	}
+}
+
+// CmdEvent: vh fnevent <in.ndjson> <out.ndjson>. Runs Checkers.Validate on vectors whose field values use the whole
+// uint32 range and records the verdict; the record is validated by Apalache against EventCheck.tla.
+func CmdEvent(args []string) int {
+	if len(args) < 2 {
+		fmt.Fprintln(os.Stderr, "usage: vh fnevent <in> <out>")
+		return 2
+	}
+	out, err := os.Create(args[1])
+	if err != nil {
+		fmt.Fprintln(os.Stderr, err)
+		return 2
+	}
+	defer out.Close()
+	enc := json.NewEncoder(out)
+	r := newReport("event")
+	err = r.forLines(args[0], func(line []byte) error {
+		var v evVec
+		if err := json.Unmarshal(line, &v); err != nil {
+			return err
+		}
+		acc, errText, panicked := v.validate()
+		return enc.Encode(map[string]interface{}{"e": v.E, "ps": v.Ps, "cur": v.Cur, "vals": v.Vals, "accepted": acc, "error": errText, "panicked": panicked})
+	})
+	if err != nil {
+		fmt.Fprintln(os.Stderr, err)
+		return 2
+	}
+	fmt.Printf("{\"cases\": %d}\n", r.Vectors)
+	return 0
 }
 
 func itoa(n int) string {
